@@ -37,6 +37,10 @@ type c09Case struct {
 	// InHandler (stop = disconnect, phase connected): Disconnect is called by the application's message handler, i.e. on the
 	// client's reader goroutine, when a message arrives - not from a goroutine of its own
 	InHandler bool `json:"inHandler,omitempty"`
+	// CancelInActive (no stop): the context of Connect ends inside the ConnState(Active) callback of the first connection that
+	// succeeds - after the accepting CONNACK, before Connect has returned. Connect may report either outcome; the connection
+	// exists, so the loop must go on supervising it (redial after a loss) and Disconnect must stop it.
+	CancelInActive bool `json:"cancelInActive,omitempty"`
 	// DiscCtxDone (stop = disconnect): the context handed to Disconnect has already ended (<-ctx.Done(); cli.Disconnect(ctx),
 	// the usual shutdown path): Disconnect may then return that context's error at once, but the loop must stop all the same
 	DiscCtxDone bool `json:"discCtxDone,omitempty"`
@@ -180,6 +184,17 @@ func c09Run(tb rapid.TB, c c09Case) {
 
 	if c.Stop != "" && c.StopPhase == "dialling" {
 		d.holdFrom, d.holdGate = c.StopAt, make(chan struct{})
+	}
+	if c.CancelInActive && c.Stop == "" {
+		var once sync.Once
+		d.onState = func(conn int, st ConnState, err error) {
+			if st == StateActive {
+				once.Do(func() {
+					log.add(0, "CANCEL-IN-ACTIVE", nil, "")
+					cancel()
+				})
+			}
+		}
 	}
 	connRet := make(chan error, 1)
 	go func() {
@@ -357,7 +372,7 @@ func c09Run(tb rapid.TB, c c09Case) {
 				if err == nil || !errorsIs(err, context.Canceled) {
 					fail("Connect returned %v after its context was cancelled before the first connection succeeded (want the context's error)", err)
 				}
-			} else if err != nil && !(c.Stop == "cancel") {
+			} else if err != nil && !(c.Stop == "cancel") && !(c.CancelInActive && errorsIs(err, context.Canceled)) {
 				fail("Connect returned %v although a connection was established", err)
 			}
 		case <-time.After(20 * time.Second):
@@ -569,15 +584,16 @@ func errorsIs(err, target error) bool {
 
 func c09Gen(rt *rapid.T) c09Case {
 	c := c09Case{
-		BaseUs:      rapid.SampledFrom([]int{1000, 2000, 5000}).Draw(rt, "baseUs"),
-		Clean:       rapid.Bool().Draw(rt, "clean"),
-		KeepAlive:   rapid.SampledFrom([]int{0, 0, 60, 65535}).Draw(rt, "ka"),
-		Will:        rapid.Bool().Draw(rt, "will"),
-		User:        rapid.Bool().Draw(rt, "user"),
-		IDKind:      rapid.SampledFrom([]int{0, 0, 1, 2, 3}).Draw(rt, "idKind"),
-		PingS:       rapid.SampledFrom([]int{0, 0, 2, 100}).Draw(rt, "pingS"),
-		InHandler:   rapid.Bool().Draw(rt, "inHandler"),
-		DiscCtxDone: rapid.IntRange(0, 2).Draw(rt, "discCtxDone") == 0,
+		BaseUs:         rapid.SampledFrom([]int{1000, 2000, 5000}).Draw(rt, "baseUs"),
+		Clean:          rapid.Bool().Draw(rt, "clean"),
+		KeepAlive:      rapid.SampledFrom([]int{0, 0, 60, 65535}).Draw(rt, "ka"),
+		Will:           rapid.Bool().Draw(rt, "will"),
+		User:           rapid.Bool().Draw(rt, "user"),
+		IDKind:         rapid.SampledFrom([]int{0, 0, 1, 2, 3}).Draw(rt, "idKind"),
+		PingS:          rapid.SampledFrom([]int{0, 0, 2, 100}).Draw(rt, "pingS"),
+		InHandler:      rapid.Bool().Draw(rt, "inHandler"),
+		DiscCtxDone:    rapid.IntRange(0, 2).Draw(rt, "discCtxDone") == 0,
+		CancelInActive: rapid.IntRange(0, 3).Draw(rt, "cancelInActive") == 0,
 	}
 	c.MaxUs = c.BaseUs * rapid.SampledFrom([]int{1, 2, 4, 8}).Draw(rt, "maxMul")
 	if rapid.IntRange(0, 9).Draw(rt, "maxBelowBase") == 0 {
